@@ -3,6 +3,7 @@ package sim
 import (
 	"bytes"
 	"fmt"
+	"regexp"
 	"runtime"
 	"runtime/debug"
 	"sort"
@@ -262,7 +263,7 @@ func (w *World) Go(name string, fn func()) {
 		w.yield("start")
 		defer func() {
 			if r := recover(); r != nil {
-				w.Fail(w.PanicClass, "actor %s panicked: %v\n%s", name, r, debug.Stack())
+				w.Fail(w.PanicClass, "actor %s panicked: %v\n%s", name, r, cleanStack(debug.Stack()))
 			}
 			w.mu.Lock()
 			t.done = true
@@ -292,6 +293,17 @@ func (w *World) assignIDs() {
 		w.nextID++
 	}
 	w.newTasks = w.newTasks[:0]
+}
+
+var hexAddr = regexp.MustCompile(`0x[0-9a-f]+|goroutine \d+`)
+
+// cleanStack removes addresses and goroutine numbers (they differ between processes) from a stack trace.
+func cleanStack(b []byte) string {
+	lines := strings.Split(string(b), "\n")
+	if len(lines) > 24 {
+		lines = lines[:24]
+	}
+	return hexAddr.ReplaceAllString(strings.Join(lines, "\n"), "_")
 }
 
 func kindOf(name string) string {
